@@ -1,3 +1,4 @@
+import ChipFiring.Theory.Independent
 import ChipFiring.Theory.Complete
 import ChipFiring.Theory.Serial
 import ChipFiring.Properties.C04
@@ -275,5 +276,17 @@ theorem complete_graph_gonality_all (m : Nat) (hm : 2 ≤ m) :
 /-- the same for any presentation of K_n (any insertion order, either endpoint order) -/
 theorem complete_graph_gonality_any {m : Nat} (G : Graph m) (hK : IsComplete G) (hm : 2 ≤ m) :
     IsGonality G (m - 1) := complete_gonality G hK hm
+
+/-- the two theorem-backed upper entries of the bounds report (n − 1 and n − α) and their
+    minimum, the aggregate `upper_bound`, bound the gonality of every connected simple graph on
+    at least two vertices from above -/
+theorem bounds_upper_valid (G : Graph n) (hG : G.WF) (hc : G.Connected) (hn : 2 ≤ n) (hsimple : ∀ u v, G.adj u v ≤ 1)
+    (k : Nat) (hk : IsGonality G k) :
+    (k : Int) ≤ (boundsReport G).trivialUpper ∧ (k : Int) ≤ (boundsReport G).independenceUpper ∧
+    (k : Int) ≤ (boundsReport G).upper := CF.bounds_upper_valid G hG hc hn hsimple k hk
+
+/-- the independence number is attained -/
+theorem independence_attained (G : Graph n) : ∃ S : List (Fin n), S.Nodup ∧ isIndependent G S = true ∧
+    S.length = independenceNumber G := independenceNumber_attained G
 
 end CF.C19
